@@ -4,9 +4,10 @@
    Part 1: DataSet / ClassSet (also the key management of SVSet, LPRowSet, LPColSet, NameSet), for an arbitrary
    element type D.  The model (DataSetModel.v) mirrors the arrays theitem[].info, thekey[] and the free list of the
    code; ds_abs is the set as its user sees it: the list of (key, element) in number order.
-   Part 2: sparse / dense / semi-sparse vector algebra over Q (SparseVecModel.v). *)
+   Part 2: sparse / dense / semi-sparse vector algebra over Q (SparseVecModel.v).
+   Part 3: index sets, name sets, the growth of SVSet / LPRowSet / LPColSet, hash table (ContainersModel.v). *)
 From Coq Require Import List ZArith QArith Qabs Bool Permutation Sorted.
-From SV Require Import DataSetModel DataSet_Proofs SparseVecModel SparseVec_Proofs.
+From SV Require Import DataSetModel DataSet_Proofs SparseVecModel SparseVec_Proofs ContainersModel Containers_Proofs.
 Import ListNotations.
 
 (* ====================================================================================================== *)
@@ -139,6 +140,122 @@ Theorem C19_abstract_step_keeps :
     In (k, v) l -> ~ In k (a_removed d0 l o) -> ~ In k (a_written d0 l o) -> In (k, v) (astep d0 l o r).
 Proof. exact astep_keeps. Qed.
 Print Assumptions C19_abstract_step_keeps.
+
+(* ====================================================================================================== *)
+(* Part 3: index sets, name sets, vector sets, hash table                                                  *)
+(* ====================================================================================================== *)
+
+(* Index sets contain no duplicates: adding an index that is not in the set, removing a position and removing a range
+   of positions keep the set duplicate-free; removal removes exactly the addressed entries and the entries in front of
+   the first removed position keep their number. *)
+Theorem C19_idxset_nodup :
+  (forall l i, NoDup l -> ~ In i l -> NoDup (is_add l i)) /\
+  (forall l n, NoDup l -> NoDup (is_remove_pos l n)) /\
+  (forall l n m, 0 <= n <= m -> m < zlen l -> NoDup l -> NoDup (is_remove_range l n m)).
+Proof. exact (conj is_add_nodup (conj is_remove_pos_nodup is_remove_range_nodup)). Qed.
+Print Assumptions C19_idxset_nodup.
+
+Theorem C19_idxset_remove_pos :
+  forall l n, 0 <= n < zlen l ->
+    Permutation (getn 0 l n :: is_remove_pos l n) l /\ zlen (is_remove_pos l n) = zlen l - 1 /\
+    (forall i, 0 <= i < n -> getn 0 (is_remove_pos l n) i = getn 0 l i).
+Proof. exact is_remove_pos_spec. Qed.
+Print Assumptions C19_idxset_remove_pos.
+
+Theorem C19_idxset_remove_range :
+  forall l n m, 0 <= n <= m -> m < zlen l ->
+    Permutation (is_remove_range l n m ++ firstn (Z.to_nat (m + 1 - n)) (skipn (Z.to_nat n) l)) l /\
+    zlen (is_remove_range l n m) = zlen l - (m + 1 - n) /\
+    (forall i, 0 <= i < n -> getn 0 (is_remove_range l n m) i = getn 0 l i).
+Proof. exact is_remove_range_spec. Qed.
+Print Assumptions C19_idxset_remove_range.
+
+Theorem C19_idxset_pos :
+  forall l i, (is_pos l i = -1 <-> ~ In i l) /\
+    (0 <= is_pos l i -> is_pos l i < zlen l /\ getn 0 l (is_pos l i) = i /\ forall q, 0 <= q < is_pos l i -> getn 0 l q <> i).
+Proof. exact is_pos_spec. Qed.
+Print Assumptions C19_idxset_pos.
+
+Example C19_idxset_witness :
+  is_remove_range [5; 6; 7; 8; 9] 1 2 = [5; 8; 9] /\ is_remove_range [5; 6; 7] 1 2 = [5] /\ is_remove_pos [5; 6; 7] 0 = [7; 6].
+Proof. vm_compute. repeat split. Qed.
+
+(* Name lookup returns the index the name was registered under: a name that is in the set is found at its number,
+   under its key, and the key leads back to the name. *)
+Theorem C19_nameset_lookup :
+  forall s name, ns_inv s -> ns_has s name = true ->
+    0 <= ns_number s name < thenum s /\ getn 0 (ns_names s) (ns_number s name) = name /\
+    ds_key s (ns_number s name) = ns_key s name /\ In (ns_key s name, name) (ds_abs 0 s).
+Proof. exact ns_lookup. Qed.
+Print Assumptions C19_nameset_lookup.
+
+(* Registration: a new name gets a fresh key and the next number, all other names keep number and key; a name
+   that is already present is ignored. *)
+Theorem C19_nameset_add :
+  forall s name, ns_inv s -> ns_has s name = false ->
+    let s' := fst (ns_add s name) in
+    exists k, snd (ns_add s name) = Some k /\ ns_inv s' /\ ds_abs 0 s' = ds_abs 0 s ++ [(k, name)] /\
+      ~ In k (a_keys (ds_abs 0 s)) /\ ns_number s' name = thenum s /\ ns_key s' name = k /\
+      (forall other, ns_has s other = true -> ns_number s' other = ns_number s other /\ ns_key s' other = ns_key s other).
+Proof. exact ns_add_new. Qed.
+Print Assumptions C19_nameset_add.
+
+Theorem C19_nameset_add_existing :
+  forall s name, ns_has s name = true -> ns_add s name = (s, None).
+Proof. exact ns_add_existing. Qed.
+Print Assumptions C19_nameset_add_existing.
+
+(* ... and fails for removed names: after removing a name the lookup does not find it, every other name is still found
+   under its old key. *)
+Theorem C19_nameset_remove :
+  forall s name, ns_inv s -> ns_has s name = true ->
+    let s' := ns_remove_name s name in
+    ns_inv s' /\ ns_has s' name = false /\
+    (forall other, other <> name -> ns_has s' other = ns_has s other /\ ns_key s' other = ns_key s other) /\
+    ds_abs 0 s' = a_remove (ns_number s name) (ds_abs 0 s).
+Proof. exact ns_remove_name_spec. Qed.
+Print Assumptions C19_nameset_remove.
+
+(* removal of several names by their numbers (as they are when the call is made) or by their keys: exactly those names
+   disappear, the others keep their keys *)
+Theorem C19_nameset_remove_nums :
+  forall s nums, ns_inv s -> (forall n, In n nums -> 0 <= n < thenum s) ->
+    ns_inv (ns_remove_nums s nums) /\
+    (forall name, ns_has (ns_remove_nums s nums) name = ns_has s name && negb (existsb (Z.eqb (ns_number s name)) nums)) /\
+    (forall name, ns_has (ns_remove_nums s nums) name = true -> ns_key (ns_remove_nums s nums) name = ns_key s name).
+Proof. exact ns_remove_nums_spec. Qed.
+Print Assumptions C19_nameset_remove_nums.
+
+Theorem C19_nameset_remove_keys :
+  forall ks s, ns_inv s ->
+    ns_inv (ns_remove_keys s ks) /\
+    (forall name, ns_has (ns_remove_keys s ks) name = ns_has s name && negb (existsb (Z.eqb (ns_key s name)) ks)) /\
+    (forall name, ns_has (ns_remove_keys s ks) name = true -> ns_key (ns_remove_keys s ks) name = ns_key s name).
+Proof. exact ns_remove_keys_spec. Qed.
+Print Assumptions C19_nameset_remove_keys.
+
+Example C19_nameset_witness :
+  let s := fst (ns_add (fst (ns_add (fst (ns_add (ds_init 0 2) 7)) 8)) 9) in
+  ns_number s 8 = 1 /\ ns_key s 9 = 2 /\ themax s = 12 /\
+  ns_has (ns_remove_name s 7) 7 = false /\ ns_number (ns_remove_name s 7) 9 = 0 /\ ns_key (ns_remove_name s 7) 9 = 2 /\
+  ns_names (ns_remove_nums s [0; 1]) = [9].
+Proof. vm_compute. repeat split. Qed.
+
+(* SVSet / LPRowSet / LPColSet grow by themselves: ensurePSVec makes room without changing the set, so an insertion
+   always succeeds and behaves like DataSet::add *)
+Theorem C19_svset_add :
+  forall (D : Type) (d0 : D) (s : ds D) (x : D), ds_inv s ->
+    let s' := fst (svs_add d0 s x) in let k := snd (svs_add d0 s x) in
+    ds_inv s' /\ ds_abs d0 s' = ds_abs d0 s ++ [(k, x)] /\ ~ In k (a_keys (ds_abs d0 s)) /\ thenum s' = thenum s + 1.
+Proof. exact svs_add_spec. Qed.
+Print Assumptions C19_svset_add.
+
+(* hash table: a map from items to infos *)
+Theorem C19_hashtable_map :
+  (forall t k v k', ht_has t k = false -> ht_get (ht_add t k v) k' = if k' =? k then Some v else ht_get t k') /\
+  (forall t k k', ht_get (ht_remove t k) k' = if k' =? k then None else ht_get t k').
+Proof. exact (conj ht_add_get ht_remove_get). Qed.
+Print Assumptions C19_hashtable_map.
 
 Close Scope Z_scope.
 
